@@ -1811,6 +1811,12 @@ impl SctpInner {
     }
 
     async fn handle_cookie_ack(&self, _chunk: Bytes) -> Result<()> {
+        // RFC 4960 5.2.5: a COOKIE ACK received in any state other than COOKIE-ECHOED
+        // (T1 not retransmitting our COOKIE ECHO) is a duplicate and is discarded;
+        // otherwise every channel would be announced open a second time.
+        if !matches!(*self.t1_chunk.lock(), Some((CT_COOKIE_ECHO, _, _))) {
+            return Ok(());
+        }
         self.t1_cancel();
         *self.state.lock() = SctpState::Connected;
         self.advanced_peer_ack_tsn.store(
